@@ -4,6 +4,7 @@ G1  validate examines (compares / bounds-checks, with a rejecting edge) every fi
 G2  defined before use: register operands are looked up in the set-bitmap and the bitmap is updated afterwards;
     SSA operands are compared with the running wire index
 G3  eval (and Evaluator::run) compare party count and per-party bit counts before indexing the inputs
+G4  sibling consistency: every comparison of a circuit field against the same bound uses the same comparator
 """
 from .. import mir, protocol
 from ..core import AnchorMissing, Finding, RuleResult
@@ -419,5 +420,52 @@ def rule_g3(ctx):
     return res
 
 
+def rule_g4(ctx):
+    res = RuleResult("G4", "all comparisons of circuit fields against one bound use the same comparator (sibling consistency)")
+    for va in ("register_circuit::Circuit::validate", "circuit::Circuit::validate"):
+        body = ctx.body(va)
+        by_bound = {}
+        for b, blk in enumerate(body.blocks):
+            if blk["cleanup"]:
+                continue
+            items = []
+            for st in blk["stmts"]:
+                if st["k"] == "assign" and st["rv"]["k"] == "binop" and st["rv"]["op"] in ("Lt", "Le", "Gt", "Ge"):
+                    items.append((st["rv"]["op"], st["rv"]["l"], st["rv"]["r"], st["sp"]))
+            t = blk["term"]
+            if t and t["k"] == "call" and t["func"].get("declared") in ("std::cmp::PartialOrd::lt", "std::cmp::PartialOrd::le", "std::cmp::PartialOrd::gt", "std::cmp::PartialOrd::ge"):
+                opn = {"lt": "Lt", "le": "Le", "gt": "Gt", "ge": "Ge"}[mir.last_seg(t["func"]["declared"])]
+                items.append((opn, t["args"][0], t["args"][1], t["sp"]))
+            for opn, l, r, sp in items:
+                lk = frozenset((rr, tuple(p)) for (rr, p) in body.deep_sources(l, 3))
+                rk = frozenset((rr, tuple(p)) for (rr, p) in body.deep_sources(r, 3))
+
+                def is_field(k):
+                    return any((rr == SELF1 and p and p[0] in ("insts", "gates", "output_regs", "output_gates")) or rr[0] == "iter" for (rr, p) in k)
+
+                def bound_of(k):
+                    return frozenset((str(rr), p) for (rr, p) in k if not ((rr == SELF1 and p and p[0] in ("insts", "gates", "output_regs", "output_gates")) or rr[0] in ("iter", "index", "call") and False))
+                if is_field(lk) and not is_field(rk):
+                    by_bound.setdefault(bound_of(rk), []).append((opn, sp))
+                elif is_field(rk) and not is_field(lk):
+                    flip = {"Lt": "Gt", "Le": "Ge", "Gt": "Lt", "Ge": "Le"}[opn]
+                    by_bound.setdefault(bound_of(lk), []).append((flip, sp))
+        for bound, uses in by_bound.items():
+            ops = {o for o, _ in uses}
+            if len(uses) < 2:
+                continue
+            if len(ops) == 1:
+                res.ok({"function": va, "comparisons_against_one_bound": len(uses), "operator": next(iter(ops))})
+            else:
+                # report at the minority site
+                from collections import Counter
+                c = Counter(o for o, _ in uses)
+                minority = min(c, key=lambda o: c[o])
+                sp = [s_ for o, s_ in uses if o == minority][0]
+                res.bad(Finding("G4", va, "bound compared with %s in one place and %s elsewhere" % (minority, "/".join(sorted(ops - {minority}))),
+                                "circuit fields are compared against the same bound with different comparators: one of the sites is off by one", sp))
+    return res
+
+
 def run(ctx):
-    return ctx.run_rules([rule_g1, rule_g2, rule_g3])
+    return ctx.run_rules([rule_g1, rule_g2, rule_g3, rule_g4])
